@@ -304,31 +304,23 @@ theorem enum_underlying_represents {items : List EnumItem} {t : IntTy} (hw : Ite
   obtain ⟨vals, h1, h2, _⟩ := enum_spec_represents (enumUnderlying_nofix hw h)
   exact ⟨vals, h1, h2⟩
 
-/-- **Acceptance** — full-strength: every enum the spec gives a type to is accepted by `tagspec`
-with that type … -/
-def enum_accepts_full : Prop :=
-  ∀ (fixed : Option IntTy) (items : List EnumItem) (t : IntTy), ItemsWf items →
-    (∀ b, fixed = some b → ValidTy b) → Abi.enumUnderlying fixed items = some t →
-    Layout.enumUnderlying fixed items = .ok t
-
-/-- … is false: `enum E : unsigned { A };` is valid C23 (gcc 13/clang: 4 bytes, unsigned) but the
-test `value == 0 && !et->u.basic.issigned`, meant to catch wrap-around of `++value`, fires on the
-first enumerator. -/
-theorem enum_accepts_counterexample : ¬ enum_accepts_full := by
-  intro h
-  have := h (some ⟨4, false⟩) [.implicit] ⟨4, false⟩ (by decide) (by decide) (by decide)
-  revert this
-  decide
-
-/-- **Acceptance, partial**: every enum the spec gives a type to is accepted with that type,
-except when the fixed underlying type is unsigned and the first enumerator has no `=`. -/
-theorem enum_accepts_partial {fixed : Option IntTy} {items : List EnumItem} {t : IntTy}
-    (hw : ItemsWf items)
-    (hf : ∀ b, fixed = some b → ValidTy b ∧ (b.signed = true ∨ items.head? ≠ some .implicit))
+/-- **Acceptance** (full strength): every enum the spec gives a type to is accepted by `tagspec`
+with that type — no spurious `error`.  (Before commit bb180d9 this failed for
+`enum E : unsigned { A };`: the wrap-around test `value == 0 && !et->u.basic.issigned` also fired
+on the first enumerator; `enumAcceptsWitness` below is that input, kept as a regression witness.) -/
+theorem enum_accepts {fixed : Option IntTy} {items : List EnumItem} {t : IntTy}
+    (hw : ItemsWf items) (hf : ∀ b, fixed = some b → ValidTy b)
     (h : Abi.enumUnderlying fixed items = some t) : Layout.enumUnderlying fixed items = .ok t := by
   cases fixed with
   | none => exact enumUnderlying_nofix_complete hw h
-  | some b => exact enumUnderlying_fix_complete (hf b rfl).1 hw (hf b rfl).2 h
+  | some b => exact enumUnderlying_fix_complete (hf b rfl) hw h
+
+/-- Model and spec agree on acceptance *and* on the type: `tagspec` accepts an enum with type `t`
+exactly when the spec gives it the type `t`. -/
+theorem enum_underlying_iff {fixed : Option IntTy} {items : List EnumItem} {t : IntTy}
+    (hw : ItemsWf items) (hf : ∀ b, fixed = some b → ValidTy b) :
+    Layout.enumUnderlying fixed items = .ok t ↔ Abi.enumUnderlying fixed items = some t :=
+  ⟨enum_underlying_correct hw hf, enum_accepts hw hf⟩
 
 /-! ## Nested types and member lookup -/
 
@@ -404,11 +396,27 @@ example : Layout.enumUnderlying none [.explicit 0x7fffffff tInt, .implicit] = .o
     Abi.enumUnderlying none [.explicit 0x7fffffff tInt, .implicit] = some tUInt := by decide
 example : ValidTy ⟨2, false⟩ ∧ ItemsWf [.explicit 65535 tInt] ∧
     Layout.enumUnderlying (some ⟨2, false⟩) [.explicit 65535 tInt] = .ok ⟨2, false⟩ := by decide
--- enum_accepts_partial: `enum E : unsigned short { A = 65535 }`, `enum E : long { A, B = -1 }`
-example : ValidTy ⟨2, false⟩ ∧ ([EnumItem.explicit 65535 tInt].head? ≠ some .implicit) ∧
+-- enum_accepts: `enum E : unsigned short { A = 65535 }`, `enum E : long { A, B = -1 }`
+example : ValidTy ⟨2, false⟩ ∧ ItemsWf [.explicit 65535 tInt] ∧
     Abi.enumUnderlying (some ⟨2, false⟩) [.explicit 65535 tInt] = some ⟨2, false⟩ := by decide
-example : ValidTy tLong ∧ tLong.signed = true ∧ ItemsWf [.implicit, .explicit (2 ^ 64 - 1) tInt] ∧
+example : ValidTy tLong ∧ ItemsWf [.implicit, .explicit (2 ^ 64 - 1) tInt] ∧
     Abi.enumUnderlying (some tLong) [.implicit, .explicit (2 ^ 64 - 1) tInt] = some tLong := by decide
+/-- `enum E : unsigned { A, B };` — the witness of the defect repaired by bb180d9 (the old code, and
+the old model, answered `error enum-no-type`) -/
+def enumAcceptsWitness : List EnumItem := [.implicit, .implicit]
+example : ValidTy tUInt ∧ ItemsWf enumAcceptsWitness ∧
+    Abi.enumUnderlying (some tUInt) enumAcceptsWitness = some tUInt ∧
+    Layout.enumUnderlying (some tUInt) enumAcceptsWitness = .ok tUInt := by decide
+-- the wrap-around test still rejects what it is meant to reject (both sides):
+-- `enum E : unsigned long { A = -1UL, B }`, `enum E : long { A = LONG_MAX, B }`, `enum { A = -1ULL, B }`
+example : Layout.enumUnderlying (some tULong) [.explicit (2 ^ 64 - 1) tULong, .implicit] = .error .enumNoType ∧
+    Abi.enumUnderlying (some tULong) [.explicit (2 ^ 64 - 1) tULong, .implicit] = none ∧
+    Layout.enumUnderlying (some tLong) [.explicit (2 ^ 63 - 1) tLong, .implicit] = .error .enumNoType ∧
+    Abi.enumUnderlying (some tLong) [.explicit (2 ^ 63 - 1) tLong, .implicit] = none ∧
+    Layout.enumUnderlying none [.explicit (2 ^ 64 - 1) tULong, .implicit] = .error .enumNoType ∧
+    Abi.enumUnderlying none [.explicit (2 ^ 64 - 1) tULong, .implicit] = none := by decide
+-- an explicit 0 after an enumerator is not a wrap-around: `enum E : unsigned { A = 5, B = 0, C }`
+example : Layout.enumUnderlying (some tUInt) [.explicit 5 tInt, .explicit 0 tInt, .implicit] = .ok tUInt := by decide
 example : typehasint tInt (2 ^ 64 - 2 ^ 31) true = true ∧ typehasint tInt (2 ^ 64 - 2 ^ 31 - 1) true = false ∧
     typehasint tUInt (2 ^ 32) false = false := by decide
 
